@@ -14,8 +14,8 @@ import vlib
 from vlib import V
 import c20
 
-TIERS = {'quick': dict(fams=[('snippets', '')], cfgs='default,fs,od,esc', schedcfgs='default', bound=1, maxexecs=120),
-         'thorough': dict(fams=[('snippets', ''), ('taint', 'k1d0'), ('cg2d1', '')], cfgs='default,fs,od,esc,fs+od', schedcfgs='default,od,esc', bound=2, maxexecs=3000)}
+TIERS = {'quick': dict(fams=[('snippets', '')], cfgs='default,fs,od,esc,bt,bt+od,ma1', schedcfgs='default,bt', bound=1, maxexecs=120),
+         'thorough': dict(fams=[('snippets', ''), ('taint', 'k1d0'), ('cg2d1', '')], cfgs='default,fs,od,esc,fs+od,bt,bt+od,ma1,ma2', schedcfgs='default,od,esc,bt', bound=2, maxexecs=3000)}
 
 
 def main(tier):
@@ -33,7 +33,7 @@ def main(tier):
 
     def shard(i):
         out = f'{V}/build/c06-{i}.jsonl'
-        r = subprocess.run([f'{V}/bin/vps', 'determinism', '-in', subj, '-out', out, '-shard', f'{i}/{n}', '-bound', str(t['bound']),
+        r = subprocess.run([f'{vlib.BIN}/vps', 'determinism', '-in', subj, '-out', out, '-shard', f'{i}/{n}', '-bound', str(t['bound']),
                             '-maxexecs', str(t['maxexecs']), '-cfgs', t['cfgs'], '-schedcfgs', t['schedcfgs']],
                            stdout=subprocess.DEVNULL, stderr=subprocess.PIPE, text=True, env=vlib.GOENV, timeout=14400)
         recs = [json.loads(l) for l in open(out)] if os.path.exists(out) else []
@@ -55,7 +55,7 @@ def main(tier):
         if len(samples) < 5 and r['cfg'] == 'default' and len(samples) * 15 < len(recs):
             samples.append(dict(subject=r['sig'], cfg=r['cfg'], scheduling_points=r['points'], schedules=r['sched_execs'], map_order_runs=r['order_execs'],
                                 relevant_map_sites=r['relevant_sites'], baseline=r['baseline']))
-    rw = json.load(open(f'{V}/build/rewrite.json'))
+    rw = json.load(open(f"{V}/build/rewrite-{os.environ.get('VERIF_BINDIR', 'bin')}.json"))
     rep.cov = dict(states=max(states, 1), transitions=max(trans, 1), traces_validated_against_impl=execs,
                    evaluations=execs, distinct_nontrivial=dev,
                    rule='evaluation = one controlled execution of the whole taint analysis (real code, rewritten build); non-trivial = executions with '
@@ -65,5 +65,5 @@ def main(tier):
                    samples=samples)
     rep.assumptions = ['map orders: ascending baseline; one relevant site deviating (descending, rotate-1) + all-descending + all-rotated; not all permutations',
                        'internal/pointer is not rewritten (vendored); uncontrolled nondeterminism there would show up as unstable_baseline_traces',
-                       'backtrace endpoints and the max-alarms exception are not explored yet; schedule exploration is capped per worker count (see runs_hitting_the_cap)']
+                       'error message texts are not compared (only whether an error was returned); graph-node ids in panic messages are normalised (process-global counter); schedule exploration is capped per worker count (see runs_hitting_the_cap)']
     return rep.finish(exhaustive=capped == 0)
